@@ -453,6 +453,137 @@ def replay_offset():
     return {'input': 'left joins with LIMIT 2 OFFSET 1', 'dialect': 'mindsdb', 'fires': False, 'observed': 'OFFSET applied once'}
 
 
+def api_obligations(rep):
+    """plan_api_db_select (integrations of class `api`): WHERE / ORDER BY / LIMIT go into the fetch, the rest is applied by an outer step. Pushing
+    LIMIT below the outer step is sound only if that step does not group, filter groups, remove duplicates or skip rows (L1); finite case analysis
+    on the real planner over the clause combinations"""
+    from mindsdb_sql import parse_sql
+    from mindsdb_sql.planner import plan_query
+    from mindsdb_sql.planner.steps import FetchDataframeStep
+    fn = 'mindsdb_sql.planner.query_planner:QueryPlanner.plan_api_db_select'
+    ints = [{'name': 'api1', 'class_type': 'api', 'type': 'data'}, {'name': 'int2', 'class_type': 'sql', 'type': 'data'}]
+    for g, h, d, o, ob in itertools.product((0, 1), (0, 1), (0, 1), (0, 1), (0, 1)):
+        if h and not g:
+            continue
+        tg = 'a, count(*)' if g else 'a, b'
+        sql = (f'SELECT {"DISTINCT " if d else ""}{tg} FROM api1.t WHERE c = 1' + (' GROUP BY a' if g else '') + (' HAVING count(*) > 1' if h else '') +
+               (' ORDER BY a' if ob else '') + ' LIMIT 5' + (' OFFSET 2' if o else ''))
+        oid = f'C08.api.limit.group{g}.having{h}.distinct{d}.offset{o}.order{ob}'
+        clause = 'LIMIT reaches the fetch from an api integration only if the outer step neither groups, filters groups, removes duplicates nor skips rows; the outer step keeps LIMIT otherwise'
+        try:
+            p = plan_query(parse_sql(sql), integrations=copy.deepcopy(ints), default_namespace='mindsdb')
+        except Exception as e:
+            rep.undecided(oid, 'pysym', f'{type(e).__name__}: {e}'[:120], function=fn, clause=clause)
+            continue
+        f = [s_ for s_ in p.steps if isinstance(s_, FetchDataframeStep)]
+        inner_limit = bool(f) and f[0].query.limit is not None
+        outer = [s_ for s_ in p.steps if not isinstance(s_, FetchDataframeStep)]
+        outer_limit = any(getattr(getattr(s_, 'query', None), 'limit', None) is not None for s_ in outer)
+        safe = not (g or h or d or o)
+        if inner_limit and not safe:
+            why = [n for n, x in (('GROUP BY', g), ('HAVING', h), ('DISTINCT', d), ('OFFSET', o)) if x]
+            rep.failed(oid, 'pysym', f'LIMIT is pushed into the fetch `{f[0].query}` although the outer step applies {", ".join(why)}: the limit then counts rows before that step', function=fn, clause=clause,
+                       replay={'input': sql, 'dialect': 'mindsdb', 'fires': True, 'observed': f'plan: {[str(getattr(s_, "query", type(s_).__name__)) for s_ in p.steps]}', 'expected': 'LIMIT applied after ' + ", ".join(why)})
+        elif not inner_limit and not outer_limit:
+            rep.failed(oid, 'pysym', 'LIMIT is applied by no step', function=fn, clause=clause,
+                       replay={'input': sql, 'dialect': 'mindsdb', 'fires': True, 'observed': f'plan: {[str(getattr(s_, "query", type(s_).__name__)) for s_ in p.steps]}', 'expected': 'LIMIT 5 somewhere'})
+        else:
+            rep.proved(oid, 'pysym', f'limit {"in the fetch" if inner_limit else "on the outer step"}', function=fn, clause=clause)
+
+
+def udf_obligations(rep):
+    """plan_integration_select_with_functions (a user-defined function `ns.f(...)` in the query): comparisons on the function cannot be evaluated by
+    the integration and are applied by an outer step. Finite case analysis on the real planner:
+      where.<context>   the filter sent to the integration is implied by the original WHERE (three-valued truth table; the UDF comparison is an
+                        unknown leaf) - replacing the comparison by a tautology is sound only in a monotone position
+      limit.<shape>     LIMIT / OFFSET reach the fetch only if the outer step applies no filter, grouping or DISTINCT; OFFSET is applied exactly once"""
+    from mindsdb_sql import parse_sql
+    from mindsdb_sql.planner import plan_query
+    from mindsdb_sql.planner.steps import FetchDataframeStep
+    fn = 'mindsdb_sql.planner.query_planner:QueryPlanner.plan_integration_select_with_functions'
+    ints = [{'name': 'int1', 'class_type': 'sql', 'type': 'data'}]
+
+    def run(sql):
+        p = plan_query(parse_sql(sql), integrations=copy.deepcopy(ints), default_namespace='mindsdb')
+        f = [s_ for s_ in p.steps if isinstance(s_, FetchDataframeStep)]
+        outer = [s_ for s_ in p.steps if not isinstance(s_, FetchDataframeStep)]
+        return p, (f[0].query if f else None), outer
+    # ---- WHERE contexts: evaluate the fetch filter for every valuation with the UDF leaf unknown
+    from mindsdb_sql.parser import ast as A
+
+    def ev(node, val):
+        if node is None:
+            return T
+        if isinstance(node, A.BinaryOperation):
+            op = node.op.lower()
+            if op == 'and':
+                return _and(ev(node.args[0], val), ev(node.args[1], val))
+            if op == 'or':
+                return _or(ev(node.args[0], val), ev(node.args[1], val))
+            txt = ' '.join(node.get_string().replace('`', '').split())
+            if txt in val:
+                return val[txt]
+            if all(isinstance(a, A.Constant) for a in node.args):
+                return T if (node.args[0].value == node.args[1].value) == (op == '=') else F
+            raise KeyError(txt)
+        if isinstance(node, A.UnaryOperation) and node.op.lower() == 'not':
+            return _not(ev(node.args[0], val))
+        raise KeyError(str(node))
+    LEAF, OTHER = 'ns.f(a) > 1', 'b = 2'
+    contexts = {'top': LEAF, 'and': f'{OTHER} AND {LEAF}', 'or': f'{OTHER} OR {LEAF}', 'not': f'NOT ({LEAF})', 'not-or': f'NOT ({OTHER} OR {LEAF})',
+                'and-not': f'{OTHER} AND NOT ({LEAF})', 'or-and': f'{OTHER} OR ({OTHER} AND {LEAF})', 'mirrored': '1 < ns.f(a)'}
+    for cname, cond in contexts.items():
+        sql = f'SELECT a FROM int1.t WHERE {cond}'
+        oid = f'C08.udf.where.{cname}'
+        clause = 'the filter sent to the integration is implied by the original WHERE for every value (true / false / unknown) of the UDF comparison'
+        try:
+            p, fq, outer = run(sql)
+            orig = parse_sql(sql).where
+            bad = None
+            leaf_txt = ' '.join(parse_sql(f'select 1 from t where {LEAF if cname != "mirrored" else "1 < ns.f(a)"}').where.get_string().replace('`', '').split())
+            for lv, ov in itertools.product((T, F, U), (T, F, U)):
+                val = {leaf_txt: lv, OTHER: ov}
+                if ev(orig, val) == T and ev(fq.where, val) != T:
+                    bad = (lv, ov, str(fq.where))
+                    break
+        except Exception as e:
+            rep.undecided(oid, 'pysym', f'{type(e).__name__}: {e}'[:160], function=fn, clause=clause)
+            continue
+        if bad:
+            rep.failed(oid, 'pysym', f'`{sql}`: the fetch is filtered by `{bad[2]}`, which is not true when the UDF comparison is {bad[0]} and `{OTHER}` is {bad[1]} although WHERE is true: rows are lost before the function is evaluated',
+                       function=fn, clause=clause, replay={'input': sql, 'dialect': 'mindsdb', 'fires': True, 'observed': f'fetch `{fq}`', 'expected': 'a filter implied by WHERE'})
+        else:
+            rep.proved(oid, 'pysym', f'fetch filter `{fq.where}`', function=fn, clause=clause)
+    # ---- LIMIT / OFFSET
+    for udf_in, grp, dist, off, ordr in itertools.product(('where', 'target'), (0, 1), (0, 1), (0, 1), (0, 1)):
+        tg = ('ns.f(a)' if udf_in == 'target' else 'a') + (', count(*)' if grp else '')
+        sql = (f'SELECT {"DISTINCT " if dist else ""}{tg} FROM int1.t WHERE b = 2' + (' AND ns.f(a) > 1' if udf_in == 'where' else '') + (' GROUP BY a' if grp else '') +
+               (' ORDER BY a' if ordr else '') + ' LIMIT 5' + (' OFFSET 2' if off else ''))
+        oid = f'C08.udf.limit.{udf_in}.group{grp}.distinct{dist}.offset{off}.order{ordr}'
+        clause = 'LIMIT / OFFSET reach the fetch only if the outer step neither filters, groups nor removes duplicates; LIMIT and OFFSET are each applied exactly once'
+        try:
+            p, fq, outer = run(sql)
+        except Exception as e:
+            rep.undecided(oid, 'pysym', f'{type(e).__name__}: {e}'[:160], function=fn, clause=clause)
+            continue
+        oq = [getattr(s_, 'query', None) for s_ in outer]
+        n_lim = (fq.limit is not None) + sum(1 for q_ in oq if getattr(q_, 'limit', None) is not None)
+        n_off = (fq.offset is not None) + sum(1 for q_ in oq if getattr(q_, 'offset', None) is not None)
+        outer_filters = any(getattr(q_, 'where', None) is not None for q_ in oq)
+        problems = []
+        if n_lim != 1:
+            problems.append(f'LIMIT is applied by {n_lim} steps')
+        if n_off != (1 if off else 0):
+            problems.append(f'OFFSET is applied by {n_off} steps')
+        if (fq.limit is not None or fq.offset is not None) and (outer_filters or grp or dist):
+            problems.append('LIMIT / OFFSET is pushed into the fetch although the outer step ' + ', '.join(w for w, x in (('filters', outer_filters), ('groups', grp), ('removes duplicates', dist)) if x))
+        if problems:
+            rep.failed(oid, 'pysym', f'`{sql}`: ' + '; '.join(problems), function=fn, clause=clause,
+                       replay={'input': sql, 'dialect': 'mindsdb', 'fires': True, 'observed': f'plan: {[str(getattr(s_, "query", type(s_).__name__)) for s_ in p.steps]}', 'expected': 'limit / offset applied once, after filtering'})
+        else:
+            rep.proved(oid, 'pysym', f'limit {"in the fetch" if fq.limit is not None else "on the outer step"}', function=fn, clause=clause)
+
+
 def cte_lookup_obligations(rep):
     """get_integration_select_step: the result of a CTE is read only for a table reference that is not qualified by another database;
     a table of an integration that happens to carry the name of a CTE is fetched from that integration"""
@@ -938,6 +1069,8 @@ def check(rep, tier):
     conjunct_obligations(rep)
     union_obligations(rep)
     cte_lookup_obligations(rep)
+    api_obligations(rep)
+    udf_obligations(rep)
     semijoin_obligations(rep)
     outer_obligation(rep)
     bounded(rep, tier)
